@@ -16,7 +16,7 @@ import (
 
 func init() {
 	Register(&Scenario{
-		Prop: "C07", Run: scenarioC07, QuickRuns: 18000, ThoroughRuns: 450000, Level: "exploration",
+		Prop: "C07", Run: scenarioC07, QuickRuns: 18000, ThoroughRuns: 2000000, Level: "exploration",
 		Rule:       "one run = a seeded evolving world; after every generation tape-chosen pairs are compared: organisms of the population with each other, with archived ancestors of earlier generations (long excess tails), with their duplicate, and with harness-cut variants (a prefix, the genes at even / odd positions: empty overlap and interleaved disjoint genes); each pair is evaluated in both argument orders under both methods and several non-negative coefficient sets against the set-based reference E*ce + D*cd + W*cm. A case is one (pair, coefficient set); non-trivial when the pair has at least one excess or disjoint gene; distinct by the pair's alignment pattern hash",
 		RealParts:  []string{"Genome.compatibility with its linear and fast methods", "the epochs that produce the genomes"},
 		StubParts:  []string{"fitness assignment"},
